@@ -14,3 +14,10 @@ def run(ctx):
     from . import common
     ctx.rule("C13-g", "the tail of the x-space point is the caller's: the x-space entry hands its point to the sampling routine unmodified")
     common.entry_forwards_inputs(ctx, ctx.roles, "C13-g")
+
+    # the formulas above are written in the scalar type's own operations; for the f64 instantiation those are decided by C20-a — restated
+    # here for exactly the operations this code calls: a `powf` / `sqrt` / `cos` of `impl MomTropFloat for f64` that is not std's breaks
+    # this property with every anchored line untouched
+    from .restate import restate_f64_primitives
+    from .c14 import find_gauss
+    restate_f64_primitives(ctx, [lambda: find_gauss(ctx, ctx.roles)[2]], "the Gaussian routine")
